@@ -596,14 +596,22 @@ def _run_once(sc: dict, with_block: bool, post_ops: List[str], wrappers: bool, p
     cls = class_patterns(sc, info) if with_block else None
     exempt = arp_exempt(sc)
     closure = {"ok": 0, "bad": []}
+    prot_origin: Dict[int, Any] = {}
 
     def tx(self, sender_nic, frame):
         if to_prot["on"] and sender_nic._connected_node.config.hostname in barrier:
             rx = self.endpoint_b if self.endpoint_a is sender_nic else self.endpoint_a
             if rx is not None and rx._connected_node is not None and rx._connected_node.config.hostname in prot:
                 to_prot["n"] += 1
-        if to_prot["on"] and cls is not None and sender_nic._connected_node.config.hostname not in prot:
-            # closure hypothesis of the class cut theorem, validated: every frame an attacker-side node puts on a wire is in the class
+        if sender_nic._connected_node.config.hostname in prot and id(frame) not in prot_origin:
+            # a frame a PROTECTED node created (B's own keep-alives, replies to what was permitted): when a rule that is specific to
+            # attacker sources lets it through, the blocking router forwards it into the attacker side; it is not attacker traffic
+            # and the theorem does not speak about B's own operations
+            prot_origin[id(frame)] = frame
+        if (to_prot["on"] and cls is not None and sender_nic._connected_node.config.hostname not in prot
+                and id(frame) not in prot_origin):
+            # closure hypothesis of the class cut theorem, validated: every frame an attacker-side node creates or forwards on
+            # behalf of the attacker side is in the class
             if in_class(frame, cls, exempt):
                 closure["ok"] += 1
             elif len(closure["bad"]) < 3:
